@@ -1005,8 +1005,16 @@ void matrixSslDeleteSession(ssl_t *ssl)
 /*
     Free the data buffers, clear any remaining user data
  */
-    Memset(ssl->inbuf, 0x0, ssl->insize);
-    Memset(ssl->outbuf, 0x0, ssl->outsize);
+    /* Either buffer can be absent, e.g. outbuf after a DTLS flight resend
+       that could not reallocate it. */
+    if (ssl->inbuf)
+    {
+        Memset(ssl->inbuf, 0x0, ssl->insize);
+    }
+    if (ssl->outbuf)
+    {
+        Memset(ssl->outbuf, 0x0, ssl->outsize);
+    }
     psFree(ssl->outbuf, ssl->bufferPool);
     psFree(ssl->inbuf, ssl->bufferPool);
 
